@@ -475,6 +475,10 @@ func buildVariant(v core.Val, r *core.Rand) (datamodel.Node, error) {
 	if err := core.Assemble(nb, v, r); err != nil {
 		return nil, err
 	}
+	if r != nil && r.Chance(1, 4) {
+		// the same data as a node of another implementation: AssignNode of it takes every builder's generic path
+		return core.Foreign(nb.Build()), nil
+	}
 	return nb.Build(), nil
 }
 
